@@ -369,4 +369,101 @@ Proof.
     + eauto.
 Qed.
 
+(* ---- completeness: every call a thread has executed is in the log, once ---- *)
+Definition Complete (c : config) : Prop :=
+  length (thr c) = length progs /\
+  forall t th, nth_error (thr c) t = Some th -> forall i,
+    (i < donec th \/ (i = donec th /\ exists r, ph th = Executed r)) -> exists x, In x (cslog c) /\ c_t x = t /\ c_i x = i.
+
+Lemma set_thread_length c t th th' : nth_error (thr c) t = Some th -> length (set_thread c t th') = length (thr c).
+Proof.
+  intros Hn. assert (Hlt : t < length (thr c)) by (apply nth_error_Some; congruence).
+  unfold set_thread. rewrite app_length, firstn_length, Nat.min_l by lia. cbn [length]. rewrite skipn_length. lia.
+Qed.
+
+Lemma move_complete c t c' : Complete c -> move c t = Some c' -> Complete c'.
+Proof.
+  intros [Hlen HC] Hm. unfold move in Hm.
+  destruct (nth_error (thr c) t) as [th|] eqn:Hn; [|discriminate].
+  destruct (ph th) eqn:Hp; destruct (todo th) as [|o os] eqn:Ht; try discriminate.
+  - (* Idle -> Waiting *)
+    injection Hm as <-. split; [cbn [thr]; rewrite (set_thread_length _ _ _ _ Hn); exact Hlen|]. cbn [thr cslog].
+    intros u thu Hu i Hi. thr_cases Hn Hu u t.
+    + injection Hu as <-. cbn [donec ph] in Hi. destruct Hi as [Hi|[_ [r Hr]]]; [|discriminate]. apply (HC t th Hn i). left. exact Hi.
+    + apply (HC u thu Hu i Hi).
+  - (* Waiting -> Holding *)
+    destruct (lock c); [discriminate|]. injection Hm as <-. split; [cbn [thr]; rewrite (set_thread_length _ _ _ _ Hn); exact Hlen|]. cbn [thr cslog].
+    intros u thu Hu i Hi. thr_cases Hn Hu u t.
+    + injection Hu as <-. cbn [donec ph] in Hi. destruct Hi as [Hi|[_ [r Hr]]]; [|discriminate]. apply (HC t th Hn i). left. exact Hi.
+    + apply (HC u thu Hu i Hi).
+  - destruct (lock c); [discriminate|]. injection Hm as <-. split; [cbn [thr]; rewrite (set_thread_length _ _ _ _ Hn); exact Hlen|]. cbn [thr cslog].
+    intros u thu Hu i Hi. thr_cases Hn Hu u t.
+    + injection Hu as <-. cbn [donec ph] in Hi. destruct Hi as [Hi|[_ [r Hr]]]; [|discriminate]. apply (HC t th Hn i). left. exact Hi.
+    + apply (HC u thu Hu i Hi).
+  - (* Holding -> Executed: the call is logged *)
+    destruct (step (st c) o) as [s' r]. injection Hm as <-. split; [cbn [thr]; rewrite (set_thread_length _ _ _ _ Hn); exact Hlen|]. cbn [thr cslog].
+    intros u thu Hu i Hi. thr_cases Hn Hu u t.
+    + injection Hu as <-. cbn [donec ph] in Hi. destruct Hi as [Hi|[-> _]].
+      * destruct (HC t th Hn i (or_introl Hi)) as (x & Hx & H1 & H2). exists x. split; [right; exact Hx|]. split; assumption.
+      * eexists. split; [left; reflexivity|]. split; reflexivity.
+    + destruct (HC u thu Hu i Hi) as (x & Hx & H1 & H2). exists x. split; [right; exact Hx|]. split; assumption.
+  - (* Executed -> Idle: the index advances *)
+    injection Hm as <-. split; [cbn [thr]; rewrite (set_thread_length _ _ _ _ Hn); exact Hlen|]. cbn [thr cslog].
+    intros u thu Hu i Hi. thr_cases Hn Hu u t.
+    + injection Hu as <-. cbn [donec ph] in Hi. destruct Hi as [Hi|[_ [r' Hr]]]; [|discriminate].
+      apply (HC t th Hn i). destruct (Nat.eq_dec i (donec th)) as [->|Hne]; [right; split; [reflexivity|eauto]|left; lia].
+    + apply (HC u thu Hu i Hi).
+  - injection Hm as <-. split; [cbn [thr]; rewrite (set_thread_length _ _ _ _ Hn); exact Hlen|]. cbn [thr cslog].
+    intros u thu Hu i Hi. thr_cases Hn Hu u t.
+    + injection Hu as <-. cbn [donec ph] in Hi. destruct Hi as [Hi|[_ [r' Hr]]]; [|discriminate].
+      apply (HC t th Hn i). destruct (Nat.eq_dec i (donec th)) as [->|Hne]; [right; split; [reflexivity|eauto]|left; lia].
+    + apply (HC u thu Hu i Hi).
+Qed.
+
+Lemma init_complete s : Complete (init s progs).
+Proof.
+  split; [cbn; apply map_length|]. cbn [init thr cslog]. intros t th Hn i Hi. rewrite nth_error_map in Hn.
+  destruct (nth_error progs t); [|discriminate]. injection Hn as <-. cbn in Hi. destruct Hi as [Hi|[_ [r Hr]]]; [lia|discriminate].
+Qed.
+
+Lemma run_complete c sched : Complete c -> Complete (run c sched).
+Proof.
+  revert c; induction sched as [|t rest IH]; intros c H; cbn [run]; [exact H|].
+  apply IH. destruct (move c t) as [c'|] eqn:Hm; [eapply move_complete; eauto | exact H].
+Qed.
+
+(* when every thread has finished, every call of every program is in the linearization - exactly once *)
+Theorem lin_complete s0 sched :
+  let c := run (init s0 progs) sched in
+  (forall t th, nth_error (thr c) t = Some th -> todo th = [] /\ ph th = Idle) ->
+  forall t i o, nth_error (prog t) i = Some o -> exists x, In x (lin c) /\ c_t x = t /\ c_i x = i /\ c_o x = o.
+Proof.
+  cbn zeta. set (c := run (init s0 progs) sched). intros Hfin t i o Ho.
+  pose proof (run_inv _ sched (init_inv s0)) as I. fold c in I.
+  destruct (run_complete _ sched (init_complete s0)) as [Hlen HC]. fold c in Hlen, HC.
+  assert (Ht : t < length progs).
+  { unfold prog in Ho. destruct (Nat.lt_ge_cases t (length progs)) as [H|H]; [exact H|]. rewrite nth_overflow in Ho by exact H. destruct i; discriminate. }
+  destruct (nth_error (thr c) t) as [th|] eqn:Hn; [|apply nth_error_None in Hn; lia].
+  destruct (Hfin t th Hn) as [Htodo Hph]. destruct (i_thr c I t th Hn) as (Hsk & _).
+  assert (Hi : i < donec th).
+  { rewrite Htodo in Hsk. assert (Hl : i < length (prog t)) by (apply nth_error_Some; congruence).
+    destruct (Nat.lt_ge_cases i (donec th)) as [H|H]; [exact H|]. exfalso.
+    assert (length (skipn (donec th) (prog t)) = 0) by (rewrite <- Hsk; reflexivity). rewrite skipn_length in H0. lia. }
+  destruct (HC t th Hn i (or_introl Hi)) as (x & Hx & H1 & H2).
+  exists x. split; [unfold lin; apply in_rev in Hx; rewrite <- in_rev; apply in_rev; exact Hx|]. split; [exact H1|]. split; [exact H2|].
+  destruct (i_call c I x Hx) as (_ & _ & _ & Hc). rewrite H1, H2 in Hc. congruence.
+Qed.
+
+Theorem lin_once s0 sched x y :
+  let c := run (init s0 progs) sched in
+  In x (lin c) -> In y (lin c) -> c_t x = c_t y -> c_i x = c_i y -> x = y.
+Proof.
+  cbn zeta. set (c := run (init s0 progs) sched). intros Hx Hy Ht Hi.
+  pose proof (run_inv _ sched (init_inv s0)) as I. fold c in I.
+  unfold lin in Hx, Hy. apply in_rev in Hx. apply in_rev in Hy.
+  destruct (in_two _ x y Hx Hy) as [E|[(l1 & l2 & l3 & E)|(l1 & l2 & l3 & E)]]; [exact E| |].
+  - exfalso. destruct (i_sorted c I l1 x (l2 ++ y :: l3) E y ltac:(apply in_or_app; right; left; reflexivity)) as [_ H]. specialize (H (eq_sym Ht)). lia.
+  - exfalso. destruct (i_sorted c I l1 y (l2 ++ x :: l3) E x ltac:(apply in_or_app; right; left; reflexivity)) as [_ H]. specialize (H Ht). lia.
+Qed.
+
 End Lin.
